@@ -117,21 +117,31 @@ Proof.
   pose proof (rank_le3 st txt). lia.
 Qed.
 
-Lemma next_token_cap_refines txt st :
-  next_token txt st <> LPanic -> next_token txt st = next_token_nocap txt st.
+Lemma cap_refines c txt st :
+  next_token_cap c txt st <> LPanic -> next_token_cap c txt st = next_token_nocap txt st.
 Proof.
-  intros H. unfold next_token, next_token_nocap in *. apply lex_loop_fuel_indep; [exact H|].
+  intros H. unfold next_token_cap, next_token_nocap in *. apply lex_loop_fuel_indep; [exact H|].
   apply next_token_nocap_total.
 Qed.
 
 Lemma cap_val : cap = 4095%nat.
 Proof. reflexivity. Qed.
 
-Lemma next_token_short txt st : (length txt <= 2045)%nat -> next_token txt st <> LPanic.
+Lemma cap_short txt st : (length txt <= 2045)%nat -> next_token_cap cap txt st <> LPanic.
 Proof.
-  intros H. unfold next_token. apply lex_loop_fuel_enough. rewrite cap_val. unfold mu.
+  intros H. unfold next_token_cap. apply lex_loop_fuel_enough. rewrite cap_val. unfold mu.
   pose proof (rank_le3 st txt). lia.
 Qed.
+
+(* the lexer the code has ([lex_cap]): these hold with and without the cap *)
+Ltac which_lexer := unfold next_token, lex_cap; cbv iota beta.
+
+Lemma next_token_cap_refines txt st :
+  next_token txt st <> LPanic -> next_token txt st = next_token_nocap txt st.
+Proof. which_lexer. first [apply cap_refines | reflexivity]. Qed.
+
+Lemma next_token_short txt st : (length txt <= 2045)%nat -> next_token txt st <> LPanic.
+Proof. which_lexer. first [apply cap_short | intros _; apply next_token_nocap_total]. Qed.
 
 (* ------------------------------------------------------------------ *)
 (* the text only shrinks; a returned token has consumed something     *)
@@ -264,9 +274,9 @@ Record lexer_ok (lex : str -> lst -> lres) : Prop := {
   lx_entry : forall txt st t r s, lex txt st = LTok t r s -> entry s
 }.
 
-Lemma next_token_ok : lexer_ok next_token.
+Lemma cap_ok c : lexer_ok (next_token_cap c).
 Proof.
-  split; unfold next_token; intros.
+  split; unfold next_token_cap; intros.
   - eapply lex_loop_consumes; eauto. now apply entry_fresh.
   - eapply lex_loop_entry; eauto.
 Qed.
@@ -276,6 +286,17 @@ Proof.
   split; unfold next_token_nocap; intros.
   - eapply lex_loop_consumes; eauto. now apply entry_fresh.
   - eapply lex_loop_entry; eauto.
+Qed.
+
+Lemma next_token_ok : lexer_ok next_token.
+Proof. which_lexer. first [apply cap_ok | apply next_token_nocap_ok]. Qed.
+
+Lemma nocap_len txt st t r s : next_token_nocap txt st = LTok t r s -> (length r <= length txt)%nat.
+Proof. unfold next_token_nocap. apply lex_loop_len. Qed.
+
+Lemma next_token_len txt st t r s : next_token txt st = LTok t r s -> (length r <= length txt)%nat.
+Proof.
+  intros H. rewrite next_token_cap_refines in H by (rewrite H; discriminate). eapply nocap_len; eauto.
 Qed.
 
 (* ------------------------------------------------------------------ *)
@@ -472,7 +493,7 @@ Proof.
   destruct (next_token txt ls) eqn:E; try discriminate; try congruence.
   - destruct (calm_ptoken c st t) as [P1 P2].
     destruct (ptoken c st t) as [[c' st']| | | |]; cbn [bind]; try discriminate; try congruence.
-    apply IH. unfold next_token in E. apply lex_loop_len in E. lia.
+    apply IH. apply next_token_len in E. lia.
   - destruct st; try discriminate. apply (calm_ctx_insert c parts).
 Qed.
 
